@@ -164,13 +164,12 @@ func getSpatialIdAttrs(spatialId string) (int, int, int, int, error) {
 		// 不正形式(要素数)
 		return 0, 0, 0, 0, errors.NewSpatialIdError(errors.InputValueErrorCode, fmt.Sprintf("spatialId: %v", spatialId))
 	}
-	var errNumberConversion error
-	zoom, errNumberConversion := strconv.Atoi(spatialIdAttributes[0])
-	f, errNumberConversion := strconv.Atoi(spatialIdAttributes[1])
-	x, errNumberConversion := strconv.Atoi(spatialIdAttributes[2])
-	y, errNumberConversion := strconv.Atoi(spatialIdAttributes[3])
-	// 不正形式(数値)
-	if errNumberConversion != nil {
+	zoom, errZoomConversion := strconv.Atoi(spatialIdAttributes[0])
+	f, errFConversion := strconv.Atoi(spatialIdAttributes[1])
+	x, errXConversion := strconv.Atoi(spatialIdAttributes[2])
+	y, errYConversion := strconv.Atoi(spatialIdAttributes[3])
+	// 不正形式(数値): いずれかの成分が数値でない場合
+	if errZoomConversion != nil || errFConversion != nil || errXConversion != nil || errYConversion != nil {
 		return 0, 0, 0, 0, errors.NewSpatialIdError(errors.InputValueErrorCode, fmt.Sprintf("spatialId: %v", spatialId))
 	}
 	return zoom, f, x, y, nil
